@@ -13,7 +13,13 @@ const (
 
 var operandChoices = [][]string{
 	nil, {"-"}, {"in1"}, {"in1", "in2"}, {"v=1", "in1"}, {"-", "in2"}, {"in2", "v=2", "in1"},
+	// an operand that names an existing directory is a file operand like any other: NoFileReads
+	// refuses it (without the flag, reading it fails: outside the modelled fragment)
+	{"adir"}, {"adir", "in1"}, {"v=3", "adir", "-"},
 }
+
+// DirMarker as the content of a Files entry makes that entry a directory of the sandbox.
+const DirMarker = "\x00directory"
 
 // builder appends ops while tracking (as if nothing were refused) which files are open in
 // which direction, so that a program never reads a file it has open for writing or the other
@@ -112,7 +118,7 @@ func Systematic(i int, mode string) *Case {
 	of := []string{OFDefault, OFRecorder, OFRooted}[(i/(len(Forms)*8))%3]
 	place := (i / (len(Forms) * 8 * 3)) % 3
 	c := &Case{Gen: "systematic", Flags: fl, OpenFile: of, Mode: mode, Stdin: Stdin,
-		Files: map[string]string{"in1": In1, "in2": In2, "out1": Old}}
+		Files: map[string]string{"in1": In1, "in2": In2, "out1": Old, "adir": DirMarker}}
 	c.HasMain = place == 1 || i%2 == 0
 	c.HasEnd = place == 2 || i%3 == 0
 	switch {
@@ -124,6 +130,9 @@ func Systematic(i int, mode string) *Case {
 		c.Operands = []string{"v=0"}
 	default:
 		c.Operands = operandChoices[(i/7)%5]
+		if (i/7)%11 == 10 {
+			c.Operands = operandChoices[7+(i/77)%3]
+		}
 	}
 	b := newBuilder()
 	var ops []Op
@@ -149,7 +158,7 @@ func Systematic(i int, mode string) *Case {
 func Random(rng *rand.Rand, mode string) *Case {
 	c := &Case{Gen: "random", Flags: FlagsOf(rng.Intn(8)), Mode: mode, Stdin: Stdin,
 		OpenFile: []string{OFDefault, OFRecorder, OFRooted}[rng.Intn(3)],
-		Files:    map[string]string{"in1": In1, "in2": In2}}
+		Files:    map[string]string{"in1": In1, "in2": In2, "adir": DirMarker}}
 	if rng.Intn(2) == 0 {
 		c.Files["out1"] = Old
 	}
